@@ -4,15 +4,18 @@ from __future__ import annotations
 import ast
 from typing import Any
 
-from ..astutil import Locals, call_name, norm, receivers, short, where
-from ..core import PKG, Report
+from ..astutil import Locals, call_name, norm, receivers, region, role_anon, short, where
+from ..cfg import walk_own
+from ..core import PKG, AnalysisError, Report
 
 LEVEL = ("effect-scope clauses (two-run comparisons are not decided): plumbing ConfigFile -> Config and CLI -> Config is the "
-         "identity (defaults only under explicit `is None` tests); every read of every Config field, in Python (typed receivers "
+         "identity, decided by symbolic execution on the value that reaches each field on every path (defaults only where the file's "
+         "value is None); every read of every Config field, in Python (typed receivers "
          "from the abstract interpreter) and in templates, is inside the function/template that the README documents for that "
-         "option, and no option is unread; options are applied uniformly (encoding on every write, field_prefix on every name "
-         "constructor, one media-type classifier whose result - never the raw key - drives classification while the raw key is "
-         "what is emitted); tags keep document order.")
+         "option, and no option is unread; options are applied uniformly (encoding on every text write of the package, field_prefix on "
+         "every name constructor, one media-type classifier whose result - never the raw key - drives classification while the raw key is "
+         "what is emitted); tags keep document order, every collection receives the endpoint object itself and the builder renders each "
+         "endpoint module from that endpoint; the package name follows the project name in effect.")
 
 # who may read each option (functions / templates), from the README's Configuration section
 ALLOWED = {
@@ -40,80 +43,33 @@ ALLOWED = {
 def run(rep: Report, ctx: Any) -> str:
     ix = ctx.py
     it, ji = ctx.flow
-    rep.rule("R16.1", "plumbing is the identity: every ConfigFile field is copied to the Config field of the same name (defaults only "
-                      "under an explicit None test), every CLI option reaches the same-named parameter unmodified")
+    rep.rule("R16.1", "plumbing is the identity, decided per path on the value that arrives (symbolic execution of from_sources, "
+                      "_process_config and generate with their private helpers inlined): every ConfigFile field reaches the Config field "
+                      "of the same name (another value only where the file's value `is None`, or an empty container where it is falsy), "
+                      "every CLI option reaches the same-named parameter unmodified, the config file named on the command line is loaded "
+                      "whenever one is named")
     rep.rule("R16.2", "every read of a Config field happens in the function/template documented for that option; no option is unread")
-    rep.rule("R16.3", "uniform application: every write passes encoding=config.file_encoding; every name constructor on document text "
+    rep.rule("R16.3", "uniform application: every text write in the package (write_text / open for writing) passes "
+                      "encoding=<Config>.file_encoding; every name constructor on document text "
                       "passes config.field_prefix; media types are classified only on the result of get_content_type while the "
                       "emitted Content-Type is the document's own key")
-    rep.rule("R16.4", "generate_all_tags: the same endpoint object is appended to every collection; tags keep the document's order")
+    rep.rule("R16.4", "generate_all_tags: the same endpoint object is appended to every collection; tags keep the document's order; the "
+                      "builder renders the module of every (collection, endpoint) pair from that very endpoint on every path")
+    rep.rule("R16.5", "project_name_override / package_name_override: where the package name is not overridden it is converted from the "
+                      "project name in effect (override included) by replacing `-` with `_`")
 
     cfgc = ix.cls("Config")
     cff = ix.cls("ConfigFile")
     fs = cfgc.methods.get("from_sources")
     rep.require(fs, "Config.from_sources")
     fields = list(ix.all_fields(cfgc))
-    ffields = set(ix.all_fields(cff))
     rep.floor("config_fields", len(fields), 17)
     # ---- R16.1 -----------------------------------------------------------------------------------------------------
-    ctor = next((c for c in ast.walk(fs.node) if isinstance(c, ast.Call) and call_name(c) == "Config"), None)
-    rep.require(ctor, "Config(...) in from_sources")
-    kws = {k.arg: k.value for k in ctor.keywords}
-    params = {p.arg for p in fs.params}
-    for fld in fields:
-        v = kws.get(fld)
-        key = f"Config.from_sources::{fld}"
-        if v is None:
-            rep.fail("R16.1", key, "field not set", where(fs, ctor))
-            continue
-        txt = norm(v)
-        if fld in ffields and fld != "post_hooks":
-            ok = txt in (f"config_file.{fld}", f"config_file.{fld} or {{}}")
-            rep.check(ok, "R16.1", key, f"Config.{fld} is not the ConfigFile value ({txt})", where(fs, v), lhs=txt, rhs=f"config_file.{fld}")
-        elif fld == "post_hooks":
-            # the variable must be the file's list whenever that is not None
-            assigns = [n for n in ast.walk(fs.node) if isinstance(n, ast.Assign) and norm(n.targets[0]) == txt]
-            sel = next((n for n in ast.walk(fs.node) if isinstance(n, ast.If) and "config_file.post_hooks" in norm(n.test)), None)
-            ok = sel is not None and norm(sel.test) in ("config_file.post_hooks is not None",) and any(
-                isinstance(s, ast.Assign) and norm(s.value) == "config_file.post_hooks" for s in sel.body)
-            rep.check(ok and bool(assigns), "R16.1", key,
-                      "the configured post_hooks are replaced by the defaults under a condition other than `is None` (an explicit empty "
-                      "list would fall back to the default hooks)", where(fs, sel or fs.node), lhs=norm(sel.test) if sel is not None else txt,
-                      rhs="config_file.post_hooks is not None")
-        else:
-            rep.check(txt == fld and fld in params, "R16.1", key, f"Config.{fld} is not the same-named argument ({txt})", where(fs, v), lhs=txt, rhs=fld)
-    # CLI -> _process_config -> from_sources
-    cg = ix.func("cli.generate")
-    pc = ix.func("cli._process_config")
-    call = next((c for c in ast.walk(cg.node) if isinstance(c, ast.Call) and call_name(c) == "_process_config"), None)
-    rep.require(call, "_process_config call")
-    for k in call.keywords:
-        want = {"meta_type": "meta"}.get(k.arg, k.arg)
-        rep.check(norm(k.value) == want, "R16.1", f"cli.generate::{k.arg}", "CLI option not forwarded verbatim", where(cg, k.value), lhs=norm(k.value), rhs=want)
-    fcall = next((c for c in ast.walk(pc.node) if isinstance(c, ast.Call) and call_name(c).endswith("from_sources")), None)
-    rep.require(fcall, "from_sources call")
-    pos = [p.arg for p in fs.params]
-    given = {pos[i]: norm(a) for i, a in enumerate(fcall.args) if i < len(pos)}
-    given.update({k.arg: norm(k.value) for k in fcall.keywords})
-    pcl = Locals(pc.node)
-    for name, val in given.items():
-        defs = sorted({norm(v_) for v_ in pcl.values_of(val)})
-        if name == "document_source":
-            # a local (any spelling) that is only ever the url or the path option
-            ok = bool(defs) and set(defs) <= {"url", "path"}
-            want = "a local bound to `url` or `path`"
-        elif name == "config_file":
-            ok = bool(defs) and set(defs) <= {"ConfigFile()", "ConfigFile.load_from_path(path=config_path)"}
-            want = "ConfigFile() | ConfigFile.load_from_path(path=config_path)"
-        else:
-            ok, want = val == name and not defs, name
-        rep.check(ok, "R16.1", f"cli._process_config::{name}", "value modified between the CLI and Config", where(pc, fcall), lhs=[val, defs], rhs=want)
-    pparams = {p.arg for p in pc.params}
-    re_assigned = sorted({x.id for n in ast.walk(pc.node) if isinstance(n, (ast.Assign, ast.AugAssign, ast.AnnAssign))
-                          for t in (n.targets if isinstance(n, ast.Assign) else [n.target]) for x in ast.walk(t)
-                          if isinstance(x, ast.Name) and x.id in pparams})
-    rep.check(not re_assigned, "R16.1", "cli._process_config::parameters-not-rebound", f"CLI values {re_assigned} are rebound before reaching Config",
-              where(pc, pc.node), lhs=re_assigned, rhs=[])
+    # Decided on values, not on the spelling of one call: from_sources is executed symbolically (every path through its tests, locals
+    # replaced by what they are bound from, dict literals filled key by key, private helpers inlined); on every path the value that
+    # reaches each field of the returned Config(...) must be the file's / the caller's value.
+    _r161_from_sources(rep, ix, fs, cfgc, cff, fields)
+    _r161_cli(rep, ix, fs)
 
     # ---- R16.2 ---------------------------------------------------------------------------------------------------------
     reads: dict[str, set[str]] = {f_: set() for f_ in fields}
@@ -151,15 +107,33 @@ def run(rep: Report, ctx: Any) -> str:
                   where="", lhs=sorted(reads[fld]), rhs="at least one reader")
 
     # ---- R16.3 -----------------------------------------------------------------------------------------------------------
-    n_w = 0
-    for f in ix.cls("Project").methods.values():
+    # every text file written anywhere in the package is written with the configured encoding - at the call that writes, wherever a
+    # refactoring puts it (method, extracted helper, module-level function)
+    for f in ix.all_functions:
+        if f.parent is not None:
+            continue
+        fl_ = None
         for c in ast.walk(f.node):
-            if isinstance(c, ast.Call) and isinstance(c.func, ast.Attribute) and c.func.attr == "write_text":
-                n_w += 1
-                enc = {k.arg: norm(k.value) for k in c.keywords}.get("encoding")
-                rep.check(enc == "self.config.file_encoding", "R16.3", f"{short(f)}::write_text({norm(c.func.value)[:30]})",
-                          "a file is written without the configured encoding", where(f, c), lhs=enc, rhs="self.config.file_encoding")
-    rep.floor("write_text_sites", n_w, 15)
+            if not isinstance(c, ast.Call):
+                continue
+            mode = _text_write(c)
+            if mode is None:
+                continue
+            enc = {k.arg: k.value for k in c.keywords}.get("encoding")
+            fl_ = fl_ or Locals(f.node)
+            srcs = [enc] if enc is not None else []
+            if isinstance(enc, ast.Name) and fl_.values_of(enc.id):
+                srcs = fl_.values_of(enc.id)  # a local alias of the option
+            ok = bool(srcs) and all(_is_config_encoding(v, it, cfgc) for v in srcs)
+            tgt = c.func.value if mode == "write_text" else (c.args[0] if c.args else c.func)
+            if isinstance(tgt, ast.Name) and len(fl_.values_of(tgt.id)) == 1:
+                tgt = fl_.values_of(tgt.id)[0]  # the key names what the path is computed from, not the local that holds it
+            rep.check(ok, "R16.3", f"{short(f)}::{mode}({role_anon(tgt, f.node)[:60]})",
+                      "a file is written without the configured encoding", where(f, c), lhs=norm(enc) if enc is not None else None, rhs="<config>.file_encoding")
+    # floor: writes performed by Project.build, a private helper's writes counted at each place it is called from
+    pb = ix.cls("Project").methods.get("build")
+    rep.require(pb, "Project.build")
+    rep.floor("write_text_sites", _write_events(ix, pb, set()), 15)
     n_pi = 0
     for f in ix.all_functions:
         if f.module.name == f"{PKG}.utils":
@@ -242,8 +216,45 @@ def run(rep: Report, ctx: Any) -> str:
             for r, c in receivers(lp, "append") if r == f"{norm(lp.target)}.endpoints"]
     rep.check(bool(apps) and all(c.args and norm(c.args[0]) in endpoints for c in apps), "R16.4", "EndpointCollection.from_data::same-endpoint-object",
               "collections receive per-tag copies", where(fd, fd.node), lhs=[norm(c) for c in apps], rhs="<collection>.endpoints.append(<endpoint>)")
+    _r164_builder(rep, ix)
+    _r165_package_name(rep, ix)
     rep.not_decided += ["'only rename' / 'same wire behaviour' across two runs with different option values"]
     return LEVEL
+
+
+def _text_write(c: ast.Call) -> str | None:
+    """`<path>.write_text(...)`, or `open(..., "w"...)` / `<path>.open("w"...)` in text mode"""
+    if isinstance(c.func, ast.Attribute) and c.func.attr == "write_text":
+        return "write_text"
+    is_open = call_name(c) in ("open", "io.open", "codecs.open") or (isinstance(c.func, ast.Attribute) and c.func.attr == "open")
+    if is_open:
+        pos = 1 if call_name(c) in ("open", "io.open", "codecs.open") else 0
+        mode = {k.arg: k.value for k in c.keywords}.get("mode", c.args[pos] if len(c.args) > pos else None)
+        if isinstance(mode, ast.Constant) and isinstance(mode.value, str) and any(ch in mode.value for ch in "wax+") and "b" not in mode.value:
+            return "open-for-writing"
+    return None
+
+
+def _is_config_encoding(v: ast.AST, it: Any, cfgc: Any) -> bool:
+    """`<Config object>.file_encoding`: the receiver is a Config for the abstract interpreter, or (where it has no value for the node) is
+    spelled as the `config` attribute / parameter"""
+    if not (isinstance(v, ast.Attribute) and v.attr == "file_encoding"):
+        return False
+    av = it.node_av.get(id(v.value))
+    if av is not None and av.types:
+        return cfgc.qual in av.types
+    return norm(v.value).rsplit(".", 1)[-1] == "config"
+
+
+def _write_events(ix: Any, f: Any, stack: set[str]) -> int:
+    if f.qual in stack or len(stack) > 6:
+        return 0
+    n = sum(1 for c in ast.walk(f.node) if isinstance(c, ast.Call) and _text_write(c))
+    helpers = {h.name: h for h in region(ix, f, 1)[1:]}
+    for c in ast.walk(f.node):
+        if isinstance(c, ast.Call) and call_name(c).rsplit(".", 1)[-1] in helpers:
+            n += _write_events(ix, helpers[call_name(c).rsplit(".", 1)[-1]], stack | {f.qual})
+    return n
 
 
 def _parent(fn: ast.AST, node: ast.AST) -> ast.AST | None:
@@ -252,3 +263,614 @@ def _parent(fn: ast.AST, node: ast.AST) -> ast.AST | None:
             if ch is node:
                 return n
     return None
+
+
+# ---- R16.4 (builder) / R16.5: symbolic execution of the Project ---------------------------------------------------------------------
+
+def _r164_builder(rep: Report, ix: Any) -> None:
+    """An endpoint module is a file whose path is computed from an element of `<collection>.endpoints`.  Its text must be, on every path,
+    `<template>.render(endpoint=<that element>)`: rendered for this collection from this endpoint, not taken from anywhere else."""
+    sites: dict[str, tuple[Any, list]] = {}  # function that contains the write -> failures
+    for f in ix.cls("Project").methods.values():
+        sx = SymExec(ix, watch=lambda c: _text_write(c) == "write_text")
+        sx.run(f)
+        for conds, call, g in sx.hits:
+            els = {norm(x) for x in ast.walk(call.func.value) if isinstance(x, ast.Subscript) and isinstance(x.slice, ast.Name) and x.slice.id == "*"
+                   and isinstance(x.value, ast.Attribute) and x.value.attr == "endpoints"}
+            if not els or not consistent(conds):
+                continue
+            bad = sites.setdefault(g.qual, (g, []))[1]
+            text = call.args[0] if call.args else {k.arg: k.value for k in call.keywords}.get("data")
+            ok = isinstance(text, ast.Call) and isinstance(text.func, ast.Attribute) and text.func.attr == "render" and not text.args and \
+                any(k.arg == "endpoint" and norm(k.value) in els for k in text.keywords)
+            if not ok and (norm(text)[:120], conds_text(conds)[:200], where(g, call)) not in bad:
+                bad.append((norm(text)[:120], conds_text(conds)[:200], where(g, call)))
+    rep.require(sites, "a write of an endpoint module (path computed from an element of <collection>.endpoints) in Project")
+    for g, bad in sites.values():
+        rep.check(not bad, "R16.4", f"{short(g)}::endpoint-module-rendered-from-its-endpoint",
+                  "the text written as an endpoint's module is not (on every path) the template rendered with that endpoint: under "
+                  "generate_all_tags a tag can receive another operation's module", bad[0][2] if bad else where(g, g.node),
+                  lhs=[b[:2] for b in bad[:4]] or "render(endpoint=<element of collection.endpoints>)",
+                  rhs="<template>.render(endpoint=<the element of collection.endpoints the path is computed from>)")
+
+
+def _r165_package_name(rep: Report, ix: Any) -> None:
+    init = ix.cls("Project").methods.get("__init__")
+    rep.require(init, "Project.__init__")
+    sx = SymExec(ix)
+    sx.run(init)
+    me = init.params[0].arg
+    bad = []
+    n = 0
+    for st, _ in sx.exits:
+        if not consistent(st.conds):
+            continue
+        pkg, prj = st.env.get(f"{me}.package_name"), st.env.get(f"{me}.project_name")
+        rep.require(pkg is not None and prj is not None, "Project.__init__ assigns self.project_name and self.package_name on every path")
+        for ac, av in alternatives(pkg):
+            if isinstance(av, ast.Attribute) and av.attr == "package_name_override":
+                continue  # the override itself
+            for pc_, pv in alternatives(prj):
+                if not consistent(st.conds + tuple(ac) + tuple(pc_)):
+                    continue
+                n += 1
+                # some `<...project name...>.replace("-", "_")` inside the value
+                ok = any(isinstance(c, ast.Call) and isinstance(c.func, ast.Attribute) and c.func.attr == "replace" and [norm(a) for a in c.args] == ["'-'", "'_'"]
+                         and any(norm(x) == norm(pv) for x in ast.walk(c.func.value)) for c in ast.walk(av))
+                if not ok:
+                    bad.append((norm(av)[:120], f"project name is {norm(pv)[:80]}", conds_text(st.conds + tuple(ac) + tuple(pc_))[:200]))
+    rep.require(n, "a default for Project.package_name")
+    rep.check(not bad, "R16.5", "Project.__init__::package-name-follows-project-name",
+              "without package_name_override the package name is not derived from the project name in effect: project_name_override alone "
+              "no longer renames the package", where(init, init.node), lhs=bad[:3] or "<project name>.replace('-', '_')", rhs="<project name in effect>.replace('-', '_')")
+
+
+# ---- R16.1: what value reaches each field ---------------------------------------------------------------------------------------
+
+def _r161_from_sources(rep: Report, ix: Any, fs: Any, cfgc: Any, cff: Any, fields: list[str]) -> None:
+    file_fields = ix.all_fields(cff)
+    params = {p.arg for p in fs.params}
+    cf_param = next((p.arg for p in fs.params if p.annotation is not None and cff.name in norm(p.annotation)), None)
+    rep.require(cf_param, "the ConfigFile parameter of Config.from_sources")
+    ctor_names = {cfgc.name} | ({fs.params[0].arg} if fs.kind == "classmethod" and fs.params else set())
+    rets = [(c, v) for c, v in SymExec(ix).run(fs) if consistent(c)]
+    rep.require(rets, "a path through Config.from_sources that returns")
+    bad: dict[str, list[tuple[str, str, ast.AST]]] = {f_: [] for f_ in fields}
+    for conds, rv in rets:
+        given = _ctor_arguments(rv, ctor_names, fields)
+        rep.require(given is not None, "Config.from_sources returns Config(...) with resolvable arguments (keywords, **{dict literal filled by constant keys})")
+        for fld in fields:
+            v = given.get(fld)
+            if v is None:
+                bad[fld].append(("field not set", conds_text(conds), rv))
+                continue
+            for ac, av in alternatives(v):
+                allc = tuple(conds) + tuple(ac)
+                if not consistent(allc):
+                    continue
+                if fld in file_fields:
+                    src = f"{cf_param}.{fld}"
+                    ok = norm(av) == src and isinstance(av, ast.Attribute) \
+                        or implies(allc, ("none", src), True) \
+                        or (implies(allc, ("truthy", src), False) and _empty_literal_of(av, file_fields[fld]))
+                else:
+                    ok = isinstance(av, ast.Name) and av.id == fld and fld in params
+                if not ok:
+                    bad[fld].append((norm(av), conds_text(allc), av))
+    for fld in fields:
+        key = f"Config.from_sources::{fld}"
+        b = bad[fld]
+        if fld in file_fields:
+            want = f"{cf_param}.{fld} (a default only where `{cf_param}.{fld} is None`)"
+            msg = f"Config.{fld} is not the ConfigFile value on every path: " + "; ".join(f"{t} when {c or 'always'}" for t, c, _ in b[:3])
+            if b and any(k in norm(file_fields[fld]).lower() for k in ("list", "dict")):
+                msg += " - the configured value is replaced under a condition other than `is None` (an explicit empty value would fall back to the default)"
+        else:
+            want = fld
+            msg = f"Config.{fld} is not the same-named argument: " + "; ".join(f"{t} when {c or 'always'}" for t, c, _ in b[:3])
+        rep.check(not b, "R16.1", key, msg, where(fs, b[0][2] if b else fs.node), lhs=[(t, c) for t, c, _ in b] or want, rhs=want)
+
+
+def _ctor_arguments(rv: ast.AST | None, ctor_names: set[str], fields: list[str]) -> dict[str, ast.AST] | None:
+    """field -> value expression of a `Config(...)` call: positional by field order, keywords, `**{...}` of a dict with constant keys"""
+    if not (isinstance(rv, ast.Call) and call_name(rv) in ctor_names) or any(isinstance(a, ast.Starred) for a in rv.args):
+        return None
+    out: dict[str, ast.AST] = {fields[i]: a for i, a in enumerate(rv.args) if i < len(fields)}
+
+    def merge(d: ast.AST) -> bool:
+        if not isinstance(d, ast.Dict):
+            return False
+        for k, v in zip(d.keys, d.values):
+            if k is None:
+                if not merge(v):
+                    return False
+            elif isinstance(k, ast.Constant) and isinstance(k.value, str):
+                out[k.value] = v
+            else:
+                return False
+        return True
+
+    for k in rv.keywords:
+        if k.arg is not None:
+            out[k.arg] = k.value
+        elif not merge(k.value):
+            return None
+    return out
+
+
+def _empty_literal_of(v: ast.AST, ann: ast.AST | None) -> bool:
+    """`{}` / `dict()` for a dict-typed field, `[]` / `list()` for a list-typed one: the only value a falsy non-None container can equal"""
+    a = norm(ann).lower()
+    kind = None
+    if isinstance(v, ast.Dict) and not v.keys:
+        kind = "dict"
+    elif isinstance(v, ast.List) and not v.elts:
+        kind = "list"
+    elif isinstance(v, ast.Call) and not v.args and not v.keywords and call_name(v) in ("dict", "list"):
+        kind = call_name(v)
+    return kind is not None and kind in a
+
+
+def _r161_cli(rep: Report, ix: Any, fs: Any) -> None:
+    """CLI option -> _process_config parameter -> from_sources parameter, on every path that reaches the respective call"""
+    cg = ix.func("cli.generate")
+    pc = ix.func("cli._process_config")
+    # generate(...) -> _process_config(...)
+    sx = SymExec(ix, watch=lambda c: call_name(c).rsplit(".", 1)[-1] == pc.name)
+    sx.run(cg)
+    hits = [(c, call) for c, call, _ in sx.hits if consistent(c)]
+    rep.require(hits, "_process_config call")
+    gparams = {p.arg for p in cg.params}
+    seen: dict[str, list[str]] = {}
+    for conds, call in hits:
+        rep.require(not any(isinstance(a, ast.Starred) for a in call.args) and all(k.arg for k in call.keywords), "_process_config(...) with explicit arguments")
+        for name, v in _bind_call(call, pc).items():
+            want = {"meta_type": "meta"}.get(name, name)
+            ok = isinstance(v, ast.Name) and v.id == want and want in gparams
+            seen.setdefault(name, []).extend([] if ok else [norm(v)])
+    for name, wrong in seen.items():
+        want = {"meta_type": "meta"}.get(name, name)
+        rep.check(not wrong, "R16.1", f"cli.generate::{name}", "CLI option not forwarded verbatim", where(cg, hits[0][1]), lhs=wrong or want, rhs=want)
+    # _process_config(...) -> Config.from_sources(...)
+    sx = SymExec(ix, watch=lambda c: call_name(c).rsplit(".", 1)[-1] == fs.name)
+    sx.run(pc)
+    hits = [(c, call) for c, call, _ in sx.hits if consistent(c)]
+    rep.require(hits, "from_sources call")
+    pparams = {p.arg for p in pc.params}
+    cffn = "ConfigFile"
+    got: dict[str, list[tuple[str, str]]] = {}
+    for conds, call in hits:
+        rep.require(not any(isinstance(a, ast.Starred) for a in call.args) and all(k.arg for k in call.keywords), "from_sources(...) with explicit arguments")
+        for name, v0 in _bind_call(call, fs).items():
+            wrong = got.setdefault(name, [])
+            for st, v in sx.values(v0, State({}, tuple(conds)), pc, 0):  # a helper called in argument position is inlined as well
+                if not consistent(st.conds):
+                    continue
+                if name == "document_source":
+                    # on every path, the url option or the path option itself
+                    ok = isinstance(v, ast.Name) and v.id in ("url", "path") and v.id in pparams
+                elif name == "config_file":
+                    # the file named by --config loaded as it is, or (only when none is named) an empty ConfigFile
+                    loaded = isinstance(v, ast.Call) and call_name(v) == f"{cffn}.load_from_path" and \
+                        [norm(a) for a in v.args] + [f"{k.arg}={norm(k.value)}" for k in v.keywords] in (["config_path"], ["path=config_path"])
+                    empty = isinstance(v, ast.Call) and call_name(v) == cffn and not v.args and not v.keywords and \
+                        implies(st.conds, ("truthy", "config_path"), False)
+                    ok = "config_path" in pparams and (loaded or empty)
+                else:
+                    ok = isinstance(v, ast.Name) and v.id == name and name in pparams
+                if not ok:
+                    wrong.append((norm(v), conds_text(st.conds)))
+    wants = {"document_source": "the `url` or the `path` option", "config_file": "ConfigFile.load_from_path(path=config_path) | ConfigFile() when no config_path"}
+    for name, wrong in got.items():
+        rep.check(not wrong, "R16.1", f"cli._process_config::{name}", "value modified between the CLI and Config", where(pc, hits[0][1]),
+                  lhs=wrong or wants.get(name, name), rhs=wants.get(name, name))
+    re_assigned = sorted({x.id for n in ast.walk(pc.node) if isinstance(n, (ast.Assign, ast.AugAssign, ast.AnnAssign))
+                          for t in (n.targets if isinstance(n, ast.Assign) else [n.target]) for x in ast.walk(t)
+                          if isinstance(x, ast.Name) and x.id in pparams})
+    rep.check(not re_assigned, "R16.1", "cli._process_config::parameters-not-rebound", f"CLI values {re_assigned} are rebound before reaching Config",
+              where(pc, pc.node), lhs=re_assigned, rhs=[])
+
+
+def _bind_call(call: ast.Call, callee: Any) -> dict[str, ast.AST]:
+    """parameter name -> argument expression (explicit arguments only)"""
+    a = callee.node.args
+    pos = [p.arg for p in [*a.posonlyargs, *a.args]]
+    if callee.kind in ("method", "classmethod"):
+        pos = pos[1:]
+    out = {pos[i]: arg for i, arg in enumerate(call.args) if i < len(pos)}
+    out.update({k.arg: k.value for k in call.keywords if k.arg})
+    return out
+
+
+# ---- a small symbolic executor ------------------------------------------------------------------------------------------------------
+# Enumerates the paths of a small function through its `if` / `try` statements.  Every local is replaced by the expression it is bound
+# from, so the values that come out are written in terms of parameters, attributes and calls only - however the function spells or
+# orders its temporaries, whether it nests or chains its tests, builds a call from keywords or from a dict filled step by step, or moves
+# a step into a private helper (inlined).  Anything it does not model becomes UNKNOWN, which no rule accepts as a value.
+
+UNKNOWN = "<unknown>"
+_MUTATORS = {"update", "setdefault", "pop", "popitem", "clear", "append", "extend", "insert", "remove", "sort", "reverse", "add", "discard"}
+Cond = tuple  # (test expression with locals substituted, polarity)
+
+
+def _unknown() -> ast.expr:
+    return ast.Name(id=UNKNOWN, ctx=ast.Load())
+
+
+class State:
+    __slots__ = ("env", "conds")
+
+    def __init__(self, env: dict[str, ast.AST], conds: tuple[Cond, ...]) -> None:
+        self.env = env
+        self.conds = conds
+
+    def fork(self, *extra: Cond) -> "State":
+        return State(dict(self.env), self.conds + tuple(extra))
+
+
+def substitute(e: ast.AST, env: dict[str, ast.AST]) -> ast.AST:
+    """e with every local `x` / attribute cell `x.attr` that env knows replaced by its value"""
+    import copy
+
+    shadow = {n.id for c in ast.walk(e) if isinstance(c, ast.comprehension) for n in ast.walk(c.target) if isinstance(n, ast.Name)}
+    shadow |= {a.arg for lam in ast.walk(e) if isinstance(lam, ast.Lambda) for a in [*lam.args.posonlyargs, *lam.args.args, *lam.args.kwonlyargs]}
+
+    class S(ast.NodeTransformer):
+        def visit_Name(self, n: ast.Name) -> ast.AST:
+            if isinstance(n.ctx, ast.Load) and n.id in env and n.id not in shadow:
+                return copy.deepcopy(env[n.id])  # not visited again: the value is already in terms of the caller's inputs
+            return n
+
+        def visit_Attribute(self, n: ast.Attribute) -> ast.AST:
+            if isinstance(n.ctx, ast.Load) and isinstance(n.value, ast.Name) and n.value.id not in shadow and f"{n.value.id}.{n.attr}" in env:
+                return copy.deepcopy(env[f"{n.value.id}.{n.attr}"])
+            return self.generic_visit(n)
+
+    return S().visit(copy.deepcopy(e))
+
+
+def _cell(t: ast.AST) -> str | None:
+    """the cell a store / in-place mutation through expression t changes: the local `x`, or `x.attr` when it goes through an attribute of x"""
+    chain = []
+    while isinstance(t, (ast.Attribute, ast.Subscript, ast.Starred)):
+        chain.append(t)
+        t = t.value
+    if not isinstance(t, ast.Name):
+        return None
+    return f"{t.id}.{chain[-1].attr}" if chain and isinstance(chain[-1], ast.Attribute) else t.id
+
+
+def _touched(nodes: list[ast.stmt]) -> set[str]:
+    """cells whose value a block of statements may change: assigned, deleted, or mutated in place"""
+    out: set[str] = set()
+    for st in nodes:
+        for n in ast.walk(st):
+            c = None
+            if isinstance(n, (ast.Name, ast.Attribute, ast.Subscript)) and isinstance(getattr(n, "ctx", None), (ast.Store, ast.Del)):
+                c = _cell(n)
+            elif isinstance(n, ast.Call) and isinstance(n.func, ast.Attribute) and n.func.attr in _MUTATORS:
+                c = _cell(n.func.value)
+            elif isinstance(n, ast.ExceptHandler) and n.name:
+                c = n.name
+            if c:
+                out.add(c)
+    return out
+
+
+def _element(it_: ast.AST, idx: int | None = None) -> ast.AST:
+    """`ITER[*]`: some element of the iterable a loop runs over (`ITER[*][i]` for the i-th name of a tuple target)"""
+    el: ast.AST = ast.copy_location(ast.Subscript(value=it_, slice=ast.Name(id="*", ctx=ast.Load()), ctx=ast.Load()), it_)
+    if idx is not None:
+        el = ast.copy_location(ast.Subscript(value=el, slice=ast.Constant(value=idx), ctx=ast.Load()), it_)
+    return el
+
+
+class SymExec:
+    MAX_STATES = 256
+
+    def __init__(self, ix: Any, watch: Any = None, inline_depth: int = 2) -> None:
+        self.ix = ix
+        self.watch = watch
+        self.inline_depth = inline_depth
+        self.hits: list[tuple[tuple[Cond, ...], ast.Call, Any]] = []  # (path condition, watched call with locals substituted, function)
+        self.exits: list[tuple[State, ast.AST]] = []                  # of the outermost function: (final state, returned value)
+
+    def run(self, f: Any, bound: dict[str, ast.AST] | None = None, conds: tuple[Cond, ...] = (), depth: int = 0) -> list[tuple[tuple[Cond, ...], ast.AST]]:
+        """(path condition, returned value) of every path that returns"""
+        rets: list[tuple[State, ast.AST]] = []
+        for s in self._block(f.node.body, [State(dict(bound or {}), tuple(conds))], rets, f, depth):
+            rets.append((s, ast.Constant(value=None)))
+        if depth == 0:
+            self.exits = rets
+        return [(s.conds, v) for s, v in rets]
+
+    # -- values ---------------------------------------------------------------------------------------------------------------------
+    def _helper(self, call: ast.AST, f: Any) -> Any:
+        if not isinstance(call, ast.Call):
+            return None
+        last = call_name(call).rsplit(".", 1)[-1]
+        return next((h for h in region(self.ix, f, 1)[1:] if h.name == last), None)
+
+    def values(self, v: ast.AST, s: State, f: Any, depth: int) -> list[tuple[State, ast.AST]]:
+        """the (already substituted) value, a call to a private helper of f replaced by what the helper returns on each of its paths"""
+        h = self._helper(v, f)
+        if h is None or depth >= self.inline_depth or any(isinstance(a, ast.Starred) for a in v.args) or any(k.arg is None for k in v.keywords):
+            return [(s, v)]
+        a = h.node.args
+        names = [p.arg for p in [*a.posonlyargs, *a.args, *a.kwonlyargs]]
+        if h.kind in ("method", "classmethod"):
+            names = names[1:]
+        allpos = [*a.posonlyargs, *a.args]
+        bound: dict[str, ast.AST] = {p.arg: d for p, d in zip(allpos[len(allpos) - len(a.defaults):], a.defaults)}
+        bound.update({p.arg: d for p, d in zip(a.kwonlyargs, a.kw_defaults) if d is not None})
+        bound.update(_bind_call(v, h))
+        for n in names:
+            bound.setdefault(n, _unknown())
+        if h.kind == "method" and f.kind == "method" and isinstance(v.func, ast.Attribute) and norm(v.func.value) == f.params[0].arg:
+            # the same object: what the caller knows about its attributes holds in the helper
+            bound.update({f"{h.params[0].arg}.{k.split('.', 1)[1]}": val for k, val in s.env.items() if k.startswith(f.params[0].arg + ".")})
+        return [(State(dict(s.env), c), rv) for c, rv in self.run(h, bound, s.conds, depth + 1)]
+
+    # -- statements -----------------------------------------------------------------------------------------------------------------
+    def _block(self, body: list[ast.stmt], states: list[State], rets: list, f: Any, depth: int) -> list[State]:
+        for st in body:
+            nxt: list[State] = []
+            for s in states:
+                nxt += self._stmt(st, s, rets, f, depth)
+            states = nxt
+            if len(states) > self.MAX_STATES:
+                raise AnalysisError(f"symbolic execution of {short(f)}: more than {self.MAX_STATES} paths")
+        return states
+
+    def _note(self, st: ast.stmt, s: State, f: Any) -> None:
+        if self.watch is None:
+            return
+        for n in walk_own(st):
+            if isinstance(n, ast.Call) and self.watch(n):
+                self.hits.append((s.conds, substitute(n, s.env), f))
+
+    def _forget(self, s: State, cell: str) -> None:
+        s.env[cell] = _unknown()
+        for k in [k for k in s.env if k.startswith(cell + ".")]:
+            del s.env[k]  # attributes of whatever the name held before
+
+    def _havoc(self, s: State, cells: set[str]) -> State:
+        s2 = s.fork()
+        for c in cells:
+            self._forget(s2, c)
+        return s2
+
+    def _method_effects(self, st: ast.stmt, s: State, f: Any) -> None:
+        """a method called on the object f itself runs on (`self.m(...)`) may assign attributes of it: those cells are no longer known"""
+        if f.cls is None or f.kind != "method" or not f.params:
+            return
+        me = f.params[0].arg
+        for n in walk_own(st):
+            if isinstance(n, ast.Call) and isinstance(n.func, ast.Attribute) and isinstance(n.func.value, ast.Name) and n.func.value.id == me:
+                todo, seen = [n.func.attr], set()
+                while todo:
+                    m = self.ix.find_method(f.cls, todo.pop())
+                    if m is None or m.qual in seen or not m.params:
+                        continue
+                    seen.add(m.qual)
+                    its = m.params[0].arg
+                    for c in _touched(m.node.body):
+                        if c.startswith(its + "."):
+                            self._forget(s, f"{me}.{c.split('.', 1)[1]}")
+                    todo += [c.func.attr for c in ast.walk(m.node) if isinstance(c, ast.Call) and isinstance(c.func, ast.Attribute)
+                             and isinstance(c.func.value, ast.Name) and c.func.value.id == its]
+
+    def _bind(self, t: ast.AST, val: ast.AST, s: State) -> None:
+        if isinstance(t, ast.Name):
+            self._forget(s, t.id)
+            s.env[t.id] = val
+        elif isinstance(t, ast.Attribute) and isinstance(t.value, ast.Name):
+            self._forget(s, f"{t.value.id}.{t.attr}")
+            s.env[f"{t.value.id}.{t.attr}"] = val
+        elif isinstance(t, (ast.Tuple, ast.List)):
+            if isinstance(val, (ast.Tuple, ast.List)) and len(val.elts) == len(t.elts) and not any(isinstance(x, ast.Starred) for x in [*t.elts, *val.elts]):
+                for te, ve in zip(t.elts, val.elts):
+                    self._bind(te, ve, s)
+            else:
+                for te in t.elts:
+                    self._bind(te, _unknown(), s)
+        elif isinstance(t, ast.Subscript) and isinstance(t.value, ast.Name) and isinstance(s.env.get(t.value.id), ast.Dict) and \
+                isinstance(t.slice, ast.Constant) and all(isinstance(k, ast.Constant) for k in s.env[t.value.id].keys):
+            d = s.env[t.value.id]
+            pairs = [(k, v) for k, v in zip(d.keys, d.values) if k.value != t.slice.value] + [(t.slice, val)]
+            s.env[t.value.id] = ast.copy_location(ast.Dict(keys=[k for k, _ in pairs], values=[v for _, v in pairs]), d)
+        else:
+            c = _cell(t)
+            if c:
+                self._forget(s, c)  # an item / nested attribute of it was assigned: whatever it held is no longer known
+
+    def _bind_loop_target(self, t: ast.AST, it_: ast.AST, s: State) -> None:
+        if isinstance(t, (ast.Tuple, ast.List)) and all(isinstance(x, ast.Name) for x in t.elts):
+            for i, x in enumerate(t.elts):
+                self._bind(x, _element(it_, i), s)
+        else:
+            self._bind(t, _element(it_), s)
+
+    def _stmt(self, st: ast.stmt, s: State, rets: list, f: Any, depth: int) -> list[State]:
+        self._note(st, s, f)
+        if isinstance(st, (ast.Assign, ast.AnnAssign)):
+            if st.value is None:
+                return [s]
+            targets = st.targets if isinstance(st, ast.Assign) else [st.target]
+            out = []
+            for s2, val in self.values(substitute(st.value, s.env), s, f, depth):
+                s2 = s2.fork()
+                self._method_effects(st, s2, f)
+                for t in targets:
+                    self._bind(t, val, s2)
+                out.append(s2)
+            return out
+        if isinstance(st, ast.AugAssign):
+            s2 = s.fork()
+            self._method_effects(st, s2, f)
+            if isinstance(st.target, ast.Name):
+                cur = substitute(ast.Name(id=st.target.id, ctx=ast.Load()), s.env)
+                s2.env[st.target.id] = ast.copy_location(ast.BinOp(left=cur, op=st.op, right=substitute(st.value, s.env)), st)
+            else:
+                self._bind(st.target, _unknown(), s2)
+            return [s2]
+        if isinstance(st, ast.If):
+            t = substitute(st.test, s.env)
+            s2 = s.fork()
+            self._method_effects(st, s2, f)
+            return self._block(st.body, [s2.fork((t, True))], rets, f, depth) + self._block(st.orelse, [s2.fork((t, False))], rets, f, depth)
+        if isinstance(st, ast.Return):
+            v = substitute(st.value, s.env) if st.value is not None else ast.Constant(value=None)
+            for s2, val in self.values(v, s, f, depth):
+                rets.append((s2, val))
+            return []
+        if isinstance(st, (ast.Raise, ast.Break, ast.Continue)):
+            return []
+        if isinstance(st, ast.Try) or st.__class__.__name__ == "TryStar":
+            outs = self._block(st.body, [s.fork()], rets, f, depth)
+            if st.orelse:
+                outs = self._block(st.orelse, outs, rets, f, depth)
+            for h in st.handlers:
+                hs = self._havoc(s, _touched(st.body) | ({h.name} if h.name else set()))
+                for b in st.body:
+                    self._method_effects(b, hs, f)
+                outs = outs + self._block(h.body, [hs], rets, f, depth)
+            if st.finalbody:
+                outs = self._block(st.finalbody, outs, rets, f, depth)
+            return outs
+        if isinstance(st, (ast.With, ast.AsyncWith)):
+            s2 = self._havoc(s, {c for i in st.items if i.optional_vars is not None for c in [_cell(i.optional_vars)] if c})
+            self._method_effects(st, s2, f)
+            return self._block(st.body, [s2], rets, f, depth)
+        if isinstance(st, (ast.For, ast.AsyncFor, ast.While)):
+            # zero or more iterations: whatever the loop may touch is unknown inside and after it; inside, the loop variable is some
+            # element of what is iterated
+            s2 = self._havoc(s, _touched([st]))
+            for b in ast.walk(st):
+                if isinstance(b, ast.stmt) and b is not st:
+                    self._method_effects(b, s2, f)
+            self._method_effects(st, s2, f)
+            inner = s2.fork()
+            if not isinstance(st, ast.While):
+                self._bind_loop_target(st.target, substitute(st.iter, s2.env), inner)
+            self._block(st.body, [inner], rets, f, depth)
+            return self._block(st.orelse, [s2], rets, f, depth) if st.orelse else [s2]
+        if isinstance(st, ast.Match):
+            s2 = self._havoc(s, _touched([st]))
+            for c in st.cases:
+                self._block(c.body, [s2.fork()], rets, f, depth)
+            return [s2]
+        if isinstance(st, ast.Expr) and isinstance(st.value, ast.Call) and isinstance(st.value.func, ast.Attribute) and st.value.func.attr == "update" and \
+                isinstance(st.value.func.value, ast.Name) and isinstance(s.env.get(st.value.func.value.id), ast.Dict):
+            # <dict local>.update({...constant keys...}, key=value, ...) is a sequence of item assignments
+            c = st.value
+            lit = c.args[0] if len(c.args) == 1 else None
+            if len(c.args) <= 1 and (lit is None or (isinstance(lit, ast.Dict) and all(isinstance(k, ast.Constant) for k in lit.keys))) and all(k.arg for k in c.keywords):
+                s2 = s.fork()
+                pairs = list(zip(lit.keys, lit.values)) if lit is not None else []
+                pairs += [(ast.Constant(value=k.arg), k.value) for k in c.keywords]
+                for k, v in pairs:
+                    self._bind(ast.Subscript(value=c.func.value, slice=k, ctx=ast.Store()), substitute(v, s.env), s2)
+                return [s2]
+        if isinstance(st, ast.Expr) and self._helper(st.value, f) is not None:
+            # a private helper called for its effects: executed in place (its watched calls are seen with the caller's values)
+            if not self.values(substitute(st.value, s.env), s, f, depth):
+                return []  # the helper never returns
+            s2 = s.fork()  # which of its paths the helper took does not matter to the caller: one state goes on
+            self._method_effects(st, s2, f)
+            return [s2]
+        if isinstance(st, (ast.Expr, ast.Delete)):
+            s2 = self._havoc(s, _touched([st]))
+            self._method_effects(st, s2, f)
+            return [s2]
+        return [s]  # def / class / import / pass / global / assert: bind nothing the rules look at
+
+
+# -- path conditions --------------------------------------------------------------------------------------------------------------------
+# atoms: ("none", X) for `X is None`, ("truthy", X) for anything else used as a test; the one axiom is  X is None  =>  not X
+
+def _leaf(e: ast.AST) -> tuple[tuple[str, str], bool] | None:
+    """(atom, polarity) of a test that is not a not/and/or; None for a constant"""
+    if isinstance(e, ast.Compare) and len(e.ops) == 1 and isinstance(e.comparators[0], ast.Constant) and e.comparators[0].value is None and \
+            isinstance(e.ops[0], (ast.Is, ast.IsNot, ast.Eq, ast.NotEq)):
+        return ("none", norm(e.left)), isinstance(e.ops[0], (ast.Is, ast.Eq))
+    return ("truthy", norm(e)), True
+
+
+def _atoms(e: ast.AST, out: list) -> None:
+    if isinstance(e, ast.BoolOp):
+        for v in e.values:
+            _atoms(v, out)
+    elif isinstance(e, ast.UnaryOp) and isinstance(e.op, ast.Not):
+        _atoms(e.operand, out)
+    elif not isinstance(e, ast.Constant):
+        a = _leaf(e)[0]
+        if a not in out:
+            out.append(a)
+
+
+def _holds(e: ast.AST, asg: dict) -> bool:
+    if isinstance(e, ast.BoolOp):
+        vals = [_holds(v, asg) for v in e.values]
+        return all(vals) if isinstance(e.op, ast.And) else any(vals)
+    if isinstance(e, ast.UnaryOp) and isinstance(e.op, ast.Not):
+        return not _holds(e.operand, asg)
+    if isinstance(e, ast.Constant):
+        return bool(e.value)
+    a, pol = _leaf(e)
+    return asg[a] == pol
+
+
+def _models(conds: tuple[Cond, ...], extra: list) -> Any:
+    import itertools
+
+    atoms: list = list(extra)
+    for e, _ in conds:
+        _atoms(e, atoms)
+    if len(atoms) > 14:
+        raise _TooManyAtoms
+    for vals in itertools.product([False, True], repeat=len(atoms)):
+        asg = dict(zip(atoms, vals))
+        if any(k == "none" and v and asg.get(("truthy", x)) for (k, x), v in asg.items()):
+            continue
+        if all(_holds(e, asg) == pol for e, pol in conds):
+            yield asg
+
+
+class _TooManyAtoms(Exception):
+    pass
+
+
+def consistent(conds: tuple[Cond, ...]) -> bool:
+    """can the path be taken at all (as far as the propositional structure of its tests tells)?  Undecided counts as yes."""
+    try:
+        return next(iter(_models(conds, [])), None) is not None
+    except _TooManyAtoms:
+        return True
+
+
+def implies(conds: tuple[Cond, ...], atom: tuple[str, str], value: bool) -> bool:
+    """the path condition forces `atom` (("none", X): X is None; ("truthy", X): bool(X)) to have the given value.  Undecided counts as no."""
+    try:
+        return all(asg[atom] == value for asg in _models(conds, [atom]))
+    except _TooManyAtoms:
+        return False
+
+
+def conds_text(conds: tuple[Cond, ...]) -> str:
+    return " and ".join(norm(e) if pol else f"not ({norm(e)})" for e, pol in conds)
+
+
+def alternatives(e: ast.AST, conds: tuple[Cond, ...] = ()) -> list[tuple[tuple[Cond, ...], ast.AST]]:
+    """a value written as a conditional expression / `a or b` / `a and b`: each operand it can evaluate to, with the condition under which"""
+    if isinstance(e, ast.IfExp):
+        return alternatives(e.body, conds + ((e.test, True),)) + alternatives(e.orelse, conds + ((e.test, False),))
+    if isinstance(e, ast.BoolOp):
+        stop = isinstance(e.op, ast.Or)  # `or` yields the first truthy operand, `and` the first falsy one, else the last
+        out = []
+        pre = conds
+        for v in e.values[:-1]:
+            out += alternatives(v, pre + ((v, stop),))
+            pre = pre + ((v, not stop),)
+        return out + alternatives(e.values[-1], pre)
+    return [(conds, e)]
